@@ -2,6 +2,7 @@ import SFV.Lemmas.Ledger
 import SFV.Lemmas.Slots
 import SFV.Lemmas.Refine
 import SFV.Lemmas.RefineStack
+import SFV.Lemmas.RefineSlots
 import SFV.Lemmas.HW
 import SFV.Model.Sched
 /-! # C10 — the scheduler never over-allocates a location
@@ -168,6 +169,35 @@ example : RefineStack.RunOk Refine.coresComp (fun _ => 2) {} {} exRunS ∧ Refin
 example : ((Refine.runS {} {} exRunS).map (fun s => ((Sched.reservedOf s 4).cores, (Sched.reservedOf s 2).cores))) = some (2, 2) ∧
     ((Refine.runS {} {} (exRunS.take 4)).map (fun s => ((Sched.reservedOf s 4).cores, (Sched.reservedOf s 2).cores))) = some (0, 0) := by
   decide +kernel
+
+/-- **whole-run refinement for slot-only locations**: every non-raising run of the Hardware-level scheduler model on flat
+    configurations whose available locations have no hardware information (`RefineSlots.SlotAvail`: slot-only locations
+    without inner levels, distinct names, `slots` as configured or the extracted default), following the engine protocol
+    (`RefineSlots.RunOk`, decidable), ends in a state related to a state of the slot bookkeeping that satisfies its
+    invariant: same job table, the location job lists `location_allocations[…].jobs` are the model's `listed`, and on every
+    location the number of fireable / running jobs placed there is at most the slots — the second sentence of the
+    property, now for the model that is compared with the real scheduler. -/
+theorem sched_refines_slots (g : RefineSlots.Cfg) (env : Sched.Env) (ops : List Refine.SOp) (s : Sched.St)
+    (hok : RefineSlots.RunOk g env {} ops) (hrun : Refine.runS env {} ops = some s) :
+    ∃ T : Slots.St,
+      (∀ j a, Sched.assocGet s.jobs j = some a → j ∈ T.ids ∧ T.status j = a.status ∧ T.placed j = RefineSlots.namesOf a.locations) ∧
+      (∀ ℓ, T.listed ℓ = RefineSlots.listedOf g s ℓ) ∧
+      (∀ ℓ, Slots.occCount T ℓ ≤ g.slots ℓ) := by
+  obtain ⟨T, hR, hI⟩ := RefineSlots.run_refines g env ops {} s Slots.init (RefineSlots.relSl_init g) (Slots.inv_init g.toSlots) hok hrun
+  exact ⟨T, fun j a ha => ⟨(hR.ids j).mpr (by simp [ha]), (hR.jobs j a ha).1, (hR.jobs j a ha).2.1⟩, hR.listed, hI.bound⟩
+
+/-! non-vacuity (slots): three jobs on a two-slot location; the third waits until the first completes; the second is
+    rolled back, un-listed and allocated again -/
+def exG : RefineSlots.Cfg := ⟨fun _ => 1, fun _ => 2, fun j => j, fun _ => [0]⟩
+def exSlotLoc : Sched.Stack := [⟨1, 5, none, some 2⟩]
+def exReq0 : Hardware := ⟨1, 1, [(0, ⟨0, 0, [], none⟩)]⟩
+def exRunSl : List Refine.SOp :=
+  [.pass 1 1 [0] exReq0 0 1 [exSlotLoc], .pass 2 2 [0] exReq0 0 1 [exSlotLoc], .pass 3 3 [0] exReq0 0 1 [exSlotLoc],
+   .notify 1 .running, .notify 1 .completed, .pass 3 3 [0] exReq0 0 1 [exSlotLoc], .notify 2 .rollback,
+   .pass 2 2 [0] exReq0 0 1 [exSlotLoc]]
+example : RefineSlots.RunOk exG {} {} exRunSl := by decide +kernel
+example : ((Refine.runS {} {} exRunSl).map (fun s => s.locJobs)) = some [((1, 5), [1, 3, 2])] ∧
+    ((Refine.runS {} {} (exRunSl.take 3)).map (fun s => s.jobs.length)) = some 2 := by decide +kernel
 
 /-- **bookkeeping invariant** (every history that follows the protocol, every configuration): at every location the
     reserved amount is what the occupying jobs were given there plus the measured usage left by finished jobs -/
